@@ -3,6 +3,10 @@ package main
 import (
 	"fmt"
 	"go/ast"
+	"os"
+	"path/filepath"
+	"sort"
+	"strings"
 )
 
 // postProcessDimAware: in moveOutArrayDir (martian/core/post_process.go), is
@@ -246,6 +250,471 @@ func init() {
 				return "true", true, nil
 			}
 			return "false", false, nil
+		},
+	})
+}
+
+// ---- the fork directories of mapped top-level calls ----
+
+// c13Render prints an expression, replacing identifiers by what `subst` says
+// (used for the outsPath argument of processStructOuts in Fork.postProcess).
+func c13Render(e ast.Expr, subst map[string]string) string {
+	switch x := e.(type) {
+	case *ast.Ident:
+		if s, ok := subst[x.Name]; ok {
+			return s
+		}
+		return x.Name
+	case *ast.BasicLit:
+		return x.Value
+	case *ast.SelectorExpr:
+		return c13Render(x.X, subst) + "." + x.Sel.Name
+	case *ast.ParenExpr:
+		return "(" + c13Render(x.X, subst) + ")"
+	case *ast.BinaryExpr:
+		return c13Render(x.X, subst) + " " + x.Op.String() + " " + c13Render(x.Y, subst)
+	case *ast.UnaryExpr:
+		return x.Op.String() + c13Render(x.X, subst)
+	case *ast.IndexExpr:
+		return c13Render(x.X, subst) + "[" + c13Render(x.Index, subst) + "]"
+	case *ast.SliceExpr:
+		s := c13Render(x.X, subst) + "["
+		if x.Low != nil {
+			s += c13Render(x.Low, subst)
+		}
+		s += ":"
+		if x.High != nil {
+			s += c13Render(x.High, subst)
+		}
+		return s + "]"
+	case *ast.CallExpr:
+		s := c13Render(x.Fun, subst) + "("
+		for i, a := range x.Args {
+			if i > 0 {
+				s += ", "
+			}
+			s += c13Render(a, subst)
+		}
+		return s + ")"
+	case *ast.FuncLit:
+		return "func{…}"
+	}
+	return fmt.Sprintf("<%T>", e)
+}
+
+func leanStrPairs(ps [][2]string) string {
+	o := make([]string, len(ps))
+	for i, p := range ps {
+		o[i] = "(" + leanStr(p[0]) + ", " + leanStr(p[1]) + ")"
+	}
+	return "[" + joinComma(o) + "]"
+}
+
+func joinComma(xs []string) string {
+	s := ""
+	for i, x := range xs {
+		if i > 0 {
+			s += ", "
+		}
+		s += x
+	}
+	return s
+}
+
+// postProcessForkDirs: for every clause of the type switch over the resolved
+// output type in Fork.postProcess (martian/core/post_process.go), the
+// expression handed to processStructOuts as the fork's directory under outs/
+// (its second argument), with the range key of the enclosing loop written
+// `<rangekey>` and loop-local `x := e` definitions substituted:
+//
+//	ArrayType    path.Join(outsPath, strconv.Itoa(<rangekey>))   outs/<index>
+//	TypedMapType path.Join(outsPath, <rangekey>)                 path.Join(outs, key)  = Martian.PostProcess.joinKey
+//	default      outsPath
+//
+// A change that routes the key through anything else (a sanitiser, an
+// encoder, a different join) changes the string and breaks the obligation
+// Props.C13.mapped_fork_dir_is_joined_key.
+func init() {
+	addFact(fact{
+		name:   "postProcessForkDirs",
+		leanTy: "List (String × String)",
+		deflt:  `[("ArrayType", "path.Join(outsPath, strconv.Itoa(<rangekey>))"), ("TypedMapType", "path.Join(outsPath, <rangekey>)"), ("default", "outsPath")]`,
+		extract: func(repo string) (string, interface{}, error) {
+			_, f, err := parseFile(repo, "martian/core/post_process.go")
+			if err != nil {
+				return "", nil, err
+			}
+			fd := findMethod(f, "Fork", "postProcess")
+			if fd == nil {
+				return "", nil, fmt.Errorf("Fork.postProcess not found")
+			}
+			var sw *ast.TypeSwitchStmt
+			ast.Inspect(fd.Body, func(n ast.Node) bool {
+				if s, ok := n.(*ast.TypeSwitchStmt); ok && sw == nil {
+					sw = s
+				}
+				return sw == nil
+			})
+			if sw == nil {
+				return "", nil, fmt.Errorf("Fork.postProcess: type switch not found")
+			}
+			var pairs [][2]string
+			for _, st := range sw.Body.List {
+				cc := st.(*ast.CaseClause)
+				label := "default"
+				if len(cc.List) == 1 {
+					t := cc.List[0]
+					if s, ok := t.(*ast.StarExpr); ok {
+						t = s.X
+					}
+					if s, ok := t.(*ast.SelectorExpr); ok {
+						label = s.Sel.Name
+					} else {
+						label = c13Render(t, nil)
+					}
+				} else if len(cc.List) > 1 {
+					label = "multiple"
+				}
+				ncalls := 0
+				// walk the clause keeping track of the innermost range statement
+				var walk func(n ast.Node, subst map[string]string)
+				walk = func(n ast.Node, subst map[string]string) {
+					ast.Inspect(n, func(m ast.Node) bool {
+						switch x := m.(type) {
+						case *ast.RangeStmt:
+							if x == n {
+								return true
+							}
+							s2 := map[string]string{}
+							for k, v := range subst {
+								s2[k] = v
+							}
+							if id, ok := x.Key.(*ast.Ident); ok && id.Name != "_" {
+								s2[id.Name] = "<rangekey>"
+							}
+							for _, bs := range x.Body.List {
+								if as, ok := bs.(*ast.AssignStmt); ok && as.Tok.String() == ":=" && len(as.Lhs) == 1 && len(as.Rhs) == 1 {
+									if id, ok := as.Lhs[0].(*ast.Ident); ok {
+										s2[id.Name] = c13Render(as.Rhs[0], s2)
+									}
+								}
+							}
+							walk(x.Body, s2)
+							return false
+						case *ast.CallExpr:
+							if sel, ok := x.Fun.(*ast.SelectorExpr); ok && sel.Sel.Name == "processStructOuts" && len(x.Args) >= 2 {
+								ncalls++
+								pairs = append(pairs, [2]string{label, c13Render(x.Args[1], subst)})
+							}
+						}
+						return true
+					})
+				}
+				walk(cc, map[string]string{})
+				if ncalls != 1 {
+					return "", nil, fmt.Errorf("Fork.postProcess: clause %s has %d processStructOuts calls", label, ncalls)
+				}
+			}
+			return leanStrPairs(pairs), pairs, nil
+		},
+	})
+}
+
+// ---- every writer of `_outs` ----
+
+// allOutsWriters: every call site in martian/ and cmd/ (test files and verif
+// hooks excluded) that writes the `_outs` metadata file: a call `X.M(OutsFile, …)`
+// / `X.M(core.OutsFile, …)` of a *Metadata method M that writes a file, or a
+// direct os.WriteFile/Create/OpenFile/Rename whose arguments mention OutsFile.
+// Per site, in (file, position) order:
+//
+//	(site, method, atomic, next, before)
+//
+// site   = "<dir>/<file>:<Recv.>Func"
+// atomic = derived from the BODY of M (metadata.go, write_atomic_linux.go, by
+//          the transitive closure over same-package calls): M reaches
+//          writeAtomicAt (temp file + renameat, see writeAtomicSteps) and
+//          reaches no os.WriteFile / os.OpenFile / os.Create
+// next   = the first call after the write, in source order within the same
+//          function, that publishes the record or starts the job that
+//          overwrites it: WriteTime(<marker>), UpdateJournal(OutsFile),
+//          runChunk, runJoin, skip; "" when there is none.
+// before = the last such call that DEFINITELY precedes the write: earlier in the
+//          source and in a block that encloses the write (same block or an
+//          ancestor); "" when there is none.  A write moved behind its
+//          completion marker shows up here.
+func init() {
+	addFact(fact{
+		name:   "allOutsWriters",
+		leanTy: "List (String × String × Bool × String × String)",
+		deflt:  "[]",
+		extract: func(repo string) (string, interface{}, error) {
+			// 1. the Metadata methods and their reach
+			bodies := map[string]*ast.BlockStmt{}
+			firstParamIsName := map[string]bool{}
+			for _, rel := range []string{"martian/core/metadata.go", "martian/core/write_atomic_linux.go", "martian/core/write_atomic.go"} {
+				_, f, err := parseFile(repo, rel)
+				if err != nil {
+					return "", nil, err
+				}
+				for _, d := range f.Decls {
+					fd, ok := d.(*ast.FuncDecl)
+					if !ok || fd.Body == nil {
+						continue
+					}
+					if fd.Recv != nil {
+						t := fd.Recv.List[0].Type
+						if s, ok := t.(*ast.StarExpr); ok {
+							t = s.X
+						}
+						if id, ok := t.(*ast.Ident); !ok || id.Name != "Metadata" {
+							continue
+						}
+						if ps := fd.Type.Params.List; len(ps) > 0 {
+							if id, ok := ps[0].Type.(*ast.Ident); ok && id.Name == "MetadataFileName" {
+								firstParamIsName[fd.Name.Name] = true
+							}
+						}
+					}
+					bodies[fd.Name.Name] = fd.Body
+				}
+			}
+			// named: the function opens the file named by its MetadataFileName argument
+			// (its body calls MetadataFilePath and itself writes, directly or through writeAtomic)
+			type reach struct{ inplace, atomicAt, named bool }
+			// direct properties and callees per function, then the least fixpoint over the call
+			// graph (the graph has cycles: WriteRawBytes -> WriteErrorString -> WriteRaw -> WriteRawBytes)
+			memo := map[string]*reach{}
+			callees := map[string][]string{}
+			var names []string
+			for name := range bodies {
+				names = append(names, name)
+			}
+			sort.Strings(names)
+			for _, name := range names {
+				r := &reach{atomicAt: name == "writeAtomicAt"}
+				memo[name] = r
+				usesPath, direct := false, false
+				ast.Inspect(bodies[name], func(n ast.Node) bool {
+					call, ok := n.(*ast.CallExpr)
+					if !ok {
+						return true
+					}
+					switch fn := call.Fun.(type) {
+					case *ast.Ident:
+						if _, ok := bodies[fn.Name]; ok {
+							callees[name] = append(callees[name], fn.Name)
+							if fn.Name == "writeAtomic" || fn.Name == "writeAtomicAt" {
+								direct = true
+							}
+						}
+					case *ast.SelectorExpr:
+						if fn.Sel.Name == "MetadataFilePath" {
+							usesPath = true
+						}
+						if x, ok := fn.X.(*ast.Ident); ok {
+							if x.Name == "os" && (fn.Sel.Name == "WriteFile" || fn.Sel.Name == "OpenFile" || fn.Sel.Name == "Create") {
+								r.inplace = true
+								direct = true
+							} else if x.Name == "self" {
+								if _, ok := bodies[fn.Sel.Name]; ok {
+									callees[name] = append(callees[name], fn.Sel.Name)
+								}
+							}
+						}
+					}
+					return true
+				})
+				r.named = usesPath && direct
+			}
+			for changed := true; changed; {
+				changed = false
+				for _, name := range names {
+					r := memo[name]
+					for _, g := range callees[name] {
+						s := memo[g]
+						n := reach{r.inplace || s.inplace, r.atomicAt || s.atomicAt, r.named || s.named}
+						if n != *r {
+							*r = n
+							changed = true
+						}
+					}
+				}
+			}
+			visit := func(name string) *reach { return memo[name] }
+			writers := map[string]bool{}
+			atomic := map[string]bool{}
+			for name := range firstParamIsName {
+				r := visit(name)
+				if r.named && (r.inplace || r.atomicAt) {
+					writers[name] = true
+					atomic[name] = r.atomicAt && !r.inplace
+				}
+			}
+			if !writers["Write"] || !writers["WriteAtomic"] {
+				return "", nil, fmt.Errorf("Metadata.Write / WriteAtomic not recognised as writers")
+			}
+			// 2. the call sites
+			isOuts := func(e ast.Expr) bool {
+				switch x := e.(type) {
+				case *ast.Ident:
+					return x.Name == "OutsFile"
+				case *ast.SelectorExpr:
+					return x.Sel.Name == "OutsFile"
+				}
+				return false
+			}
+			mentionsOuts := func(e ast.Expr) bool {
+				found := false
+				ast.Inspect(e, func(n ast.Node) bool {
+					if ex, ok := n.(ast.Expr); ok && isOuts(ex) {
+						found = true
+					}
+					return !found
+				})
+				return found
+			}
+			var files []string
+			for _, root := range []string{"martian", "cmd"} {
+				filepath.Walk(filepath.Join(repo, root), func(p string, info os.FileInfo, err error) error {
+					if err != nil || info.IsDir() {
+						return nil
+					}
+					b := filepath.Base(p)
+					if strings.HasSuffix(b, ".go") && !strings.HasSuffix(b, "_test.go") && !strings.HasPrefix(b, "verif_hooks") {
+						rel, _ := filepath.Rel(repo, p)
+						files = append(files, rel)
+					}
+					return nil
+				})
+			}
+			sort.Strings(files)
+			type site struct {
+				Site, Method string
+				Atomic       bool
+				Next, Before string
+			}
+			var sites []site
+			for _, rel := range files {
+				_, f, err := parseFile(repo, rel)
+				if err != nil {
+					continue
+				}
+				for _, d := range f.Decls {
+					fd, ok := d.(*ast.FuncDecl)
+					if !ok || fd.Body == nil {
+						continue
+					}
+					fname := fd.Name.Name
+					if fd.Recv != nil && len(fd.Recv.List) == 1 {
+						t := fd.Recv.List[0].Type
+						if s, ok := t.(*ast.StarExpr); ok {
+							t = s.X
+						}
+						if id, ok := t.(*ast.Ident); ok {
+							fname = id.Name + "." + fname
+						}
+					}
+					type ev struct {
+						pos    int
+						method string
+						atomic bool
+						marker string
+						blocks []ast.Node // enclosing blocks / case clauses, outermost first
+					}
+					var evs []ev
+					var stack []ast.Node
+					var blocks []ast.Node
+					ast.Inspect(fd.Body, func(n ast.Node) bool {
+						if n == nil {
+							top := stack[len(stack)-1]
+							stack = stack[:len(stack)-1]
+							switch top.(type) {
+							case *ast.BlockStmt, *ast.CaseClause, *ast.CommClause:
+								blocks = blocks[:len(blocks)-1]
+							}
+							return true
+						}
+						stack = append(stack, n)
+						switch n.(type) {
+						case *ast.BlockStmt, *ast.CaseClause, *ast.CommClause:
+							blocks = append(blocks, n)
+						}
+						call, ok := n.(*ast.CallExpr)
+						if !ok {
+							return true
+						}
+						nb := len(evs)
+						defer func() {
+							for i := nb; i < len(evs); i++ {
+								evs[i].blocks = append([]ast.Node{}, blocks...)
+							}
+						}()
+						sel, ok := call.Fun.(*ast.SelectorExpr)
+						if !ok {
+							if id, ok := call.Fun.(*ast.Ident); ok && id.Name == "skip" {
+								evs = append(evs, ev{pos: int(call.Pos()), marker: "skip"})
+							}
+							return true
+						}
+						name := sel.Sel.Name
+						switch {
+						case writers[name] && len(call.Args) >= 1 && isOuts(call.Args[0]):
+							evs = append(evs, ev{pos: int(call.Pos()), method: name, atomic: atomic[name]})
+						case name == "WriteTime" && len(call.Args) == 1:
+							evs = append(evs, ev{pos: int(call.Pos()), marker: "WriteTime(" + c13Render(call.Args[0], nil) + ")"})
+						case name == "UpdateJournal" && len(call.Args) == 1 && isOuts(call.Args[0]):
+							evs = append(evs, ev{pos: int(call.Pos()), marker: "UpdateJournal(OutsFile)"})
+						case name == "runChunk" || name == "runJoin" || name == "skip":
+							evs = append(evs, ev{pos: int(call.Pos()), marker: name})
+						default:
+							if x, ok := sel.X.(*ast.Ident); ok && x.Name == "os" &&
+								(name == "WriteFile" || name == "Create" || name == "OpenFile" || name == "Rename") {
+								for _, a := range call.Args {
+									if mentionsOuts(a) {
+										evs = append(evs, ev{pos: int(call.Pos()), method: "os." + name, atomic: false})
+										break
+									}
+								}
+							}
+						}
+						return true
+					})
+					sort.SliceStable(evs, func(i, j int) bool { return evs[i].pos < evs[j].pos })
+					for i, e := range evs {
+						if e.method == "" {
+							continue
+						}
+						next, before := "", ""
+						for _, l := range evs[i+1:] {
+							if l.marker != "" {
+								next = l.marker
+								break
+							}
+						}
+						for _, l := range evs[:i] {
+							if l.marker == "" || len(l.blocks) == 0 {
+								continue
+							}
+							inner := l.blocks[len(l.blocks)-1]
+							for _, b := range e.blocks {
+								if b == inner {
+									before = l.marker
+								}
+							}
+						}
+						sites = append(sites, site{rel + ":" + fname, e.method, e.atomic, next, before})
+					}
+				}
+			}
+			if len(sites) == 0 {
+				return "", nil, fmt.Errorf("no writer of OutsFile found")
+			}
+			o := make([]string, len(sites))
+			for i, s := range sites {
+				o[i] = fmt.Sprintf("(%s, %s, %v, %s, %s)", leanStr(s.Site), leanStr(s.Method), s.Atomic, leanStr(s.Next), leanStr(s.Before))
+			}
+			return "[" + joinComma(o) + "]", sites, nil
 		},
 	})
 }
